@@ -123,6 +123,7 @@ class Ctx:
         self.driver_ok = True
         self.drift = []  # 'file::function' whose normalised AST differs from the committed baseline
         self.uncovered = []  # new statements of changed functions that this run never executed
+        self.one_sided = []  # conditions inside new statements that always went the same way
         self.search_only = False
         self.boost = 1  # multiplied when the proof/correspondence broke: failing-input search budget
 
@@ -423,6 +424,12 @@ def finish(ctx: Ctx, matchers=None, level="proof"):
                  "(the model was not compared with the code on any input that takes it)",
          "file": u["file"], "function": u["qualname"], "line": u["line"], "source": u["src"]}
         for u in ctx.uncovered[:40]
+    ] + [
+        {"what": "correspondence does not exercise changed code both ways: a condition inside a new statement "
+                 "was evaluated but always went the same way (the model was never compared with the code on an "
+                 "input taking the other branch)",
+         "file": u["file"], "function": u["qualname"], "line": u["line"], "source": u["src"]}
+        for u in ctx.one_sided[:40]
     ]
 
     lines = []
@@ -510,6 +517,7 @@ def finish(ctx: Ctx, matchers=None, level="proof"):
             "oracle_failures_matching_known_findings": sum(n for _, n in known_hits.values()),
             "source_drift": ctx.drift[:40],
             "changed_statements_never_executed": [f"{u['file']}:{u['line']} ({u['qualname']}): {u['src']}" for u in ctx.uncovered[:40]],
+            "changed_conditions_one_sided": [f"{u['file']}:{u['line']} ({u['qualname']}): {u['src']}" for u in ctx.one_sided[:40]],
             "input_distribution": dict(sorted(ctx.hist.items())),
             "notes": ctx.notes,
         },
